@@ -192,12 +192,12 @@ def judge(run, bp, assign, present, completion, subcheck):
 
 
 CFGS = {
-    "general": Cfg(theories={"bool", "int", "real", "bv", "str", "arr"}, max_depth=4),
+    "general": Cfg(theories={"bool", "int", "real", "bv", "str", "arr"}, max_depth=4, pow=True),
     "shallow": Cfg(theories={"bool", "int", "real", "bv", "str", "arr"}, max_depth=2, same_child=20),
     "str": Cfg(theories={"bool", "int", "str"}, max_depth=3),
     "bv": Cfg(theories={"bool", "bv"}, bv_widths=[1, 2, 3, 4, 8, 33], max_depth=4),
     "arr": Cfg(theories={"bool", "int", "bv", "arr"}, bv_widths=[1, 2, 4], max_depth=4),
-    "arith": Cfg(theories={"bool", "int", "real"}, max_depth=4),
+    "arith": Cfg(theories={"bool", "int", "real"}, max_depth=4, pow=True),
 }
 
 
